@@ -157,6 +157,27 @@ class AppendArg(Rule):
         return out
 
 
+class GuardedDestructure(Rule):
+    """D16: `Err(UnixError::Errno(x)) if COND =>` -> `Err(e__) if (match &e__ { UnixError::Errno(x) => { let x = *x; COND }, _ => false }) =>`.
+    Same meaning (the arm body must not use x).  Needed because this Verus loses every fact about `&mut` parameters on the exits of
+    LATER arms when an earlier arm destructures a non-Copy scrutinee by value under a guard."""
+    def __init__(self):
+        Rule.__init__(self, "D16", r"Err\(UnixError::Errno\((\w+)\)\) if ", "", "destructuring guard -> guard over a borrowed match")
+
+    def custom(self, src, m, item, in_skip):
+        out = []
+        for x in self.regex.finditer(m, item.body_open, item.body_close):
+            if in_skip(x.start()):
+                continue
+            arrow = rs.depth0_find(m, x.end(), item.body_close, lambda mm_, i: mm_.startswith("=>", i))
+            if arrow < 0:
+                continue
+            var = x.group(1)
+            cond = src[x.end():arrow].strip()
+            out.append(Edit(x.start(), arrow, "Err(e__) if (match &e__ { UnixError::Errno(%s) => { let %s = *%s; %s }, _ => false }) " % (var, var, var, cond), "rule", "D16"))
+        return out
+
+
 class Loop:
     def __init__(self, invariants=(), decreases=None, iter_name=None, desugar_range_for=False, attrs=None, continue_hint=None,
                  except_break=(), ensures=(), optional=False):
